@@ -955,6 +955,36 @@ async fn run_inner(tables: &Tables, case: &Case, ctx: &mut CaseCtx, tally: &mut 
     }
     ctx.count("db_methods_answered_200_for_key_a_on_own_db", own_ok.len() as u64);
     ctx.count("backend_writes_while_admin_cold_opened_collections", worlds[0].warm_writes);
+    // ── last: a start WITHOUT an admin key over the same storage (seeded change C14-2) ──
+    // Without an admin key every caller is the administrator. As long as a per-database binding
+    // exists (also of a closed database) such a start must not hand the bound databases to an
+    // unauthenticated caller: either it is refused, or the caller is still rejected.
+    if focus.is_none() {
+        let bound = worlds[0].model.dbs.values().filter(|d| d.key.is_some()).count();
+        // half of the cases close every bound database first (all bindings then belong to closed
+        // databases, which are not in the reopen registry)
+        let close_first = case.ops.len() % 2 == 0;
+        if close_first {
+            ctx.count("keyless_start_with_every_bound_database_closed", 1);
+        }
+        match worlds[0].keyless_probe(close_first).await {
+            None => ctx.count(if bound > 0 { "keyless_start_refused_while_bindings_exist" } else { "keyless_start_refused_without_bindings" }, 1),
+            Some(answers) => {
+                ctx.count(if bound > 0 { "keyless_start_accepted_while_bindings_exist" } else { "keyless_start_accepted_without_bindings" }, 1);
+                for (name, open_status, info_status, body) in answers {
+                    if open_status == 200 || info_status == 200 {
+                        return Err(Fail {
+                            focus: None,
+                            sig: "c14/unauthenticated/keyless-start".into(),
+                            msg: format!(
+                                "[unauthenticated caller learns nothing] after a restart without an admin key (accepted although {bound} per-database binding(s) exist) a caller with NO credentials was answered {open_status} to db.open {name:?} and {info_status} to info on it: {body}"
+                            ),
+                        });
+                    }
+                }
+            }
+        }
+    }
     ctx.nontrivial = true;
     Ok(())
 }
